@@ -174,6 +174,14 @@ func c03Scenarios(tier string) []*Scenario {
 			out = append(out, c03Seq(t, 2, xNone, b))
 		}
 		out = append(out, c03Seq([]string{"n", "c"}, 3, xNone, Bounds{2, -1, 0}))
+		// Concurrency 1: ordering must not be left to the execution slot
+		for _, t := range [][]string{{"n", "c"}, {"n", "n"}, {"c", "n", "c"}, {"[nc]", "n"}, {"n", "n", "c"}} {
+			b := Bounds{2, -1, 0}
+			if len(t) == 3 {
+				b = Bounds{1, -1, 0}
+			}
+			out = append(out, c03Seq(t, 1, xNone, b))
+		}
 		out = append(out, c03Seq([]string{"c", "n", "c"}, 2, xCancel, Bounds{1, -1, 0}))
 		out = append(out, c03Seq([]string{"n", "c"}, 2, xStop, Bounds{2, -1, 0}))
 		out = append(out, c03Seq([]string{"n", "c"}, 2, xNotify, Bounds{2, -1, 0}))
@@ -187,6 +195,7 @@ func c03Scenarios(tier string) []*Scenario {
 		}
 		out = append(out, c03Seq(t, 2, xNone, b))
 		out = append(out, c03Seq(t, 3, xNone, Bounds{2, -1, 0}))
+		out = append(out, c03Seq(t, 1, xNone, Bounds{2, -1, 0}))
 	}
 	for _, x := range []string{xCancel, xStop, xNotify} {
 		out = append(out, c03Seq([]string{"n", "c"}, 2, x, Bounds{3, -1, 0}))
